@@ -76,7 +76,10 @@ def case(item):
     kind, payload = item
     P = parsers()
     try:
-        if kind in ('expr', 'pred'):
+        if kind == 'exprtext':
+            src = payload
+            kind = 'expr'
+        elif kind in ('expr', 'pred'):
             spec = payload
             if not gen.parseable(spec):
                 return None, None
@@ -183,7 +186,10 @@ def main() -> int:
     especs = families.uniq(especs)
     ptexts = property_texts(ck.tier)
     stexts = ['\n'.join(ptexts[i:i + n]) for i, n in ((0, 1), (3, 2), (10, 3), (40, 5))] + [f'# id: p{i}\n# title: "t"\n{t}' for i, t in enumerate(ptexts[::97])]
-    items = [('expr', s) for s in especs] + [('pred', s) for s in especs[::2]] + [('prop', t) for t in ptexts] + [('spec', t) for t in stexts]
+    raw = ['x < 1e999', 'x < inf', 'x < INF', 'y = 2e308', '1E-7 + 007 < 1.50', 'x = 1.0', 'x = 1', 'x = 01', '.5 < 5.', 'x < 1e400 and y > -1E400', 'x = 0.10', 'z = 1e-5', 'z = 0.00001',
+           'z < 12345678901234567890', 'a = "x" and b = "x "', 'a = "\\"" or b = "\\\\"', 'xs[0][1].f.g[2] = 1', '@A.b.c[1].d > 0', 'f( g ( h(x) ) ) > 0', 'x in {1, 1.0, 1e0}',
+           '- - x > - 1', 'not not p', '(((x))) = (y)', 'x ** y ** z > 0', 'a - b - c = a - (b - c)']
+    items = [('exprtext', t) for t in raw] + [('expr', s) for s in especs] + [('pred', s) for s in especs[::2]] + [('prop', t) for t in ptexts] + [('spec', t) for t in stexts]
     t0 = time.time()
     results = [x for c in par.pmap_chunks(worker, items, 60) for x in c]
     printed: Dict[Any, str] = {}
@@ -196,6 +202,8 @@ def main() -> int:
             continue
         accepted += 1
         src = payload if isinstance(payload, str) else gen.render(payload)
+        if kind == 'exprtext':
+            kind = 'expr'
         ck.obligation(r is None)
         if r is not None:
             sig = 'nan-literal-unequal' if r[0] == 'nan-literal-unequal' else f'{r[0]}@{kind}@{short(src, 150)}'
